@@ -4,6 +4,14 @@ still apply on top of it and build; the combination must still be reported (VIOL
 Usage: crosscheck.py [--per N] [--seed S] [name-filter ...]   (scratch worktrees under /tmp, removed afterwards)"""
 import json, os, random, re, shutil, subprocess, sys, tempfile
 from concurrent.futures import ThreadPoolExecutor
+def add_worktree(wt):
+    """git worktree add takes a lock on the repository: retry when another tool holds it"""
+    import time
+    for attempt in range(30):
+        if subprocess.call(["git","-C","/repo","worktree","add","--detach",wt,"HEAD"],stdout=subprocess.DEVNULL,stderr=subprocess.DEVNULL) == 0: return
+        time.sleep(0.5 + attempt * 0.2)
+    raise RuntimeError("git worktree add failed for " + wt)
+
 ENV = dict(os.environ, GOFLAGS="-mod=mod", GOPROXY="off", GOSUMDB="off", GOTOOLCHAIN="local", GOWORK="off")
 BIN = os.environ.get("SPOKCHECK_BIN", "/verif/bin/spokcheck")
 args = sys.argv[1:]
@@ -26,7 +34,7 @@ def run(name):
         if len(out) >= per: break
         wt = tempfile.mkdtemp(prefix="cross-", dir="/tmp"); os.rmdir(wt)
         try:
-            subprocess.check_call(["git","-C","/repo","worktree","add","--detach",wt,"HEAD"],stdout=subprocess.DEVNULL,stderr=subprocess.DEVNULL)
+            add_worktree(wt)
             if subprocess.run(["git","apply",f"/verif/seeded/{name}/patch.diff"],cwd=wt,capture_output=True).returncode != 0: break
             if subprocess.run(["git","apply",f"/verif/neutral/{nv}/patch.diff"],cwd=wt,capture_output=True).returncode != 0: continue
             if subprocess.run("go build ./...",cwd=wt,shell=True,env=ENV,capture_output=True).returncode != 0: continue
